@@ -42,7 +42,21 @@ class RAFalsy(RA):
         return 0
 
 
-RT = {"RA": RA, "RB": RB}
+class _RT(dict):
+    """name -> type; "RG" is the PEP 585 alias dict[str, int]: a new (equal, not identical) object on every access"""
+
+    def __getitem__(self, k: str) -> Any:
+        if k == "RG":
+            return dict[str, int]
+        return dict.__getitem__(self, k)
+
+
+class RG0:
+    def __init__(self, label: str) -> None:
+        self.label = label
+
+
+RT = _RT({"RA": RA, "RB": RB, "RG": None})
 
 
 class CompFail(Exception):
@@ -163,7 +177,7 @@ class Tree:
                     await anyio.lowlevel.checkpoint()
                 elif k == "add":
                     _, tname, name, label = st[:4]
-                    v = (RAB if tname == "RAB" else RAFalsy if tname == "RAF" else RT[tname])(label)
+                    v = (RAB if tname == "RAB" else RAFalsy if tname == "RAF" else RG0 if tname == "RG" else RT[tname])(label)
                     self.values[label] = v
                     types = [RA, RB] if tname == "RAB" else RA if tname == "RAF" else RT[tname]
                     kw = {}
@@ -201,6 +215,9 @@ class Tree:
                                 await env.gate(f"fac:{label}")
                                 env.log("factory!", label, n)
                                 raise FlakyError(label)
+                            # every call takes time (a gate), so that calls can overlap
+                            env.log("factory+", label, n)
+                            await env.gate(f"fac:{label}:{n}")
                             return make()
                     elif fkind == "union":
                         from typing import Union
